@@ -283,6 +283,13 @@ def run(R):
                 "two flushes can happen in one call", mcfg.fmt_path(p) if p else None)
     R.require_min("C05.EVENTS", 2)
 
+    gp = ro.BatchBase.methods.get("get_priority")
+    R.need(gp is not None, "anchor vanished: BatchBase.get_priority")
+    rets = [n.value for n in q.scope_nodes(gp.node) if isinstance(n, ast.Return)]
+    okp = len(rets) == 1 and isinstance(rets[0], ast.Tuple) and len(rets[0].elts) == 2 and q.src(rets[0].elts[1]) == "len(self.items)" \
+        and isinstance(rets[0].elts[0], ast.Constant) and isinstance(rets[0].elts[0].value, int)
+    R.check(okp, "C05.DEFAULT-PRIORITY", gp.qualname, R.site(gp), "by default a batch's priority is (constant base, number of items): the fullest batch is flushed first",
+            "the default get_priority() is no longer (base, len(self.items)): %s" % [q.src(r) if r is not None else None for r in rets])
     # FLUSH-GUARD -----------------------------------------------------------------------
     bb = ro.BatchBase
     fl = bb.methods.get("flush")
